@@ -1,19 +1,20 @@
 /-
-  Every operation of the world model preserves the world invariant `WInv`, for any fuel —
+  Every operation of the world model preserves the world invariant `WInvX X`, for any fuel —
   including `maintain` with arbitrarily nested lazily executed scripts.
 -/
 import SpecsModel.Lemmas.WorldInv
 namespace SpecsModel
 open Alloc
 namespace World
+variable {X : Nat → Prop}
 
 /-- A handle-taking storage op: unregistered / empty log / applied to the storage. -/
-theorem inv_handle_case {α} {w : World} (h : WInv w) (k hd : Nat)
+theorem inv_handle_case {α} {w : World} (h : WInvX X w) (k hd : Nat)
     (f : Masked → Alloc → Entity → Out (SRes α)) (g : α → WRes)
     (hgood : ∀ ms a e, ms.Good → ∃ r, f ms a e = .ok r ∧ r.st.Good)
     (hmask : ∀ ms a e r, f ms a e = .ok r → ∀ j, r.st.mask.mem j = true →
       ms.mask.mem j = true ∨ (j = e.id ∧ a.isAlive e = true)) :
-    WInv (match w.store? k, resolve w.ent.log hd with
+    WInvX X (match w.store? k, resolve w.ent.log hd with
       | none, _ => (w, WRes.noStore)
       | _, none => (w, WRes.skip)
       | some m, some e => w.applyS k (f m w.ent.alloc e) g).1 := by
@@ -25,15 +26,15 @@ theorem inv_handle_case {α} {w : World} (h : WInv w) (k hd : Nat)
     | some e =>
       exact inv_applyS_handle h hst hr _ (hgood m _ e (h.good k m hst)) (hmask m _ e) g
 
-theorem inv_estep' {w : World} (h : WInv w) (op : EOp) (hp : op.plain = true) :
-    WInv (match w.ent.step op with | (ew, r) => (({ w with ent := ew } : World), WRes.e r)).1 := by
+theorem inv_estep' {w : World} (h : WInvX X w) (op : EOp) (hp : op.plain = true) :
+    WInvX X (match w.ent.step op with | (ew, r) => (({ w with ent := ew } : World), WRes.e r)).1 := by
   have := inv_estep h op hp
   generalize w.ent.step op = x at *
   obtain ⟨ew, r⟩ := x
   exact this
 
-theorem inv_step_ent_nonmerge (fuel : Nat) {w : World} (h : WInv w) (eop : EOp) (hne : eop ≠ .merge) :
-    WInv (step fuel w (.ent eop)).1 := by
+theorem inv_step_ent_nonmerge (fuel : Nat) {w : World} (h : WInvX X w) (eop : EOp) (hne : eop ≠ .merge) :
+    WInvX X (step fuel w (.ent eop)).1 := by
   cases eop with
   | merge => exact absurd rfl hne
   | delAll =>
@@ -70,8 +71,8 @@ theorem inv_step_ent_nonmerge (fuel : Nat) {w : World} (h : WInv w) (eop : EOp) 
   | ejoin => simp only [step]; exact inv_estep' h .ejoin rfl
 
 /-- All operations except `maintain`. -/
-theorem inv_step_nonrec (fuel : Nat) {w : World} (h : WInv w) (op : WOp) (hop : op ≠ .ent .merge) :
-    WInv (step fuel w op).1 := by
+theorem inv_step_nonrec (fuel : Nat) {w : World} (h : WInvX X w) (op : WOp) (hop : op ≠ .ent .merge) :
+    WInvX X (step fuel w op).1 := by
   cases op with
   | ent eop => exact inv_step_ent_nonmerge fuel h eop (fun he => hop (he ▸ rfl))
   | reg k path => simp only [step]; exact inv_register h k
@@ -197,12 +198,12 @@ theorem inv_step_nonrec (fuel : Nat) {w : World} (h : WInv w) (op : WOp) (hop : 
   | dropWorld => exact inv_dropWorld h fuel
 
 /-- A queued non-script action at the moment it runs. -/
-theorem inv_runAct_nonexec (fuel : Nat) {w : World} (h : WInv w) (act : LazyAct)
+theorem inv_runAct_nonexec (fuel : Nat) {w : World} (h : WInvX X w) (act : LazyAct)
     (hents : ∀ e, e ∈ act.ents → e ∈ w.ent.log.toList) (hne : ∀ t s, act ≠ .exec t s) :
-    WInv (runAct fuel w act) := by
+    WInvX X (runAct fuel w act) := by
   obtain ⟨s, hs⟩ := h.ent
-  have one : ∀ (w1 : World) (k : Nat) (e : Entity) (v : Int), WInv w1 → e ∈ w1.ent.log.toList →
-      WInv (match w1.store? k with
+  have one : ∀ (w1 : World) (k : Nat) (e : Entity) (v : Int), WInvX X w1 → e ∈ w1.ent.log.toList →
+      WInvX X (match w1.store? k with
         | none => w1
         | some m =>
           match m.insert w1.ent.alloc e v with
@@ -228,10 +229,10 @@ theorem inv_runAct_nonexec (fuel : Nat) {w : World} (h : WInv w) (act : LazyAct)
     exact one w k e v h (hents e (by simp [LazyAct.ents]))
   | insAll t k items =>
     simp only [runAct]
-    have key : ∀ (items : List (Entity × Int)) (w1 : World), WInv w1 →
+    have key : ∀ (items : List (Entity × Int)) (w1 : World), WInvX X w1 →
         (∀ p, p ∈ items → p.1 ∈ w1.ent.log.toList) →
         (∀ w2 : World, w2.ent = w1.ent → True) →
-        WInv (items.foldl (fun (w : World) (ev : Entity × Int) =>
+        WInvX X (items.foldl (fun (w : World) (ev : Entity × Int) =>
           match w.store? k with
           | none => w
           | some m =>
@@ -272,8 +273,8 @@ theorem inv_runAct_nonexec (fuel : Nat) {w : World} (h : WInv w) (act : LazyAct)
 
 /-- `maintain` up to the point where the lazy queue starts: merge and purge re-establish the
     invariant (or the model reports a panic in a state that satisfies it). -/
-theorem inv_maintain_pre {w : World} (h : WInv w) :
-    ∃ w2, WInv w2 ∧
+theorem inv_maintain_pre {w : World} (h : WInvX X w) :
+    ∃ w2, WInvX X w2 ∧
       (∀ fuel, maintain (fuel + 1) w = ((runQueue fuel w2 []).1, .acts (runQueue fuel w2 []).2)) ∧
       (maintain 0 w).1 = w2 ∧
       (∀ j, w2.ent.alloc.occ j = (w.ent.alloc.occ j && !w.ent.alloc.killed.mem j)) ∧
@@ -295,12 +296,14 @@ theorem inv_maintain_pre {w : World} (h : WInv w) :
       cases hj : w.ent.alloc.killed.mem j with
       | false => rfl
       | true => have := (BSet.mem_toList _ _).mpr hj; rw [hnil] at this; cases this
-    have hinv1 : WInv { w with ent := { w.ent with alloc := a' } } :=
+    have hinv1 : WInvX X { w with ent := { w.ent with alloc := a' } } :=
       ⟨⟨s', hW⟩, h.size, h.good,
         fun k ms hk' i hi => by
-          have := h.owned k ms hk' i hi
-          show a'.occ i = true
-          rw [hocc i, this, hk i]; rfl,
+          rcases h.owned k ms hk' i hi with ho | hx
+          · left
+            show a'.occ i = true
+            rw [hocc i, ho, hk i]; rfl
+          · exact Or.inr hx,
         h.inTable, h.queueOk⟩
     refine ⟨_, hinv1, ?_, ?_, hocc, rfl, rfl⟩
     · intro fuel; simp only [maintain, hm, hd, if_true]
@@ -325,11 +328,11 @@ theorem inv_maintain_pre {w : World} (h : WInv w) :
 
 /-- The five mutually recursive functions all preserve the invariant. -/
 theorem inv_mutual : ∀ fuel : Nat,
-    (∀ w op, WInv w → WInv (step fuel w op).1) ∧
-    (∀ tag w ops, WInv w → WInv (runScript fuel tag w ops)) ∧
-    (∀ w act, WInv w → (∀ e, e ∈ act.ents → e ∈ w.ent.log.toList) → WInv (runAct fuel w act)) ∧
-    (∀ w acc, WInv w → WInv (runQueue fuel w acc).1) ∧
-    (∀ w, WInv w → WInv (maintain fuel w).1) := by
+    (∀ w op, WInvX X w → WInvX X (step fuel w op).1) ∧
+    (∀ tag w ops, WInvX X w → WInvX X (runScript fuel tag w ops)) ∧
+    (∀ w act, WInvX X w → (∀ e, e ∈ act.ents → e ∈ w.ent.log.toList) → WInvX X (runAct fuel w act)) ∧
+    (∀ w acc, WInvX X w → WInvX X (runQueue fuel w acc).1) ∧
+    (∀ w, WInvX X w → WInvX X (maintain fuel w).1) := by
   intro fuel
   induction fuel with
   | zero =>
@@ -349,7 +352,7 @@ theorem inv_mutual : ∀ fuel : Nat,
       rw [h0]; exact hinv2
   | succ n ih =>
     obtain ⟨ihStep, ihScript, ihAct, ihQueue, ihMaint⟩ := ih
-    have hQueue : ∀ w acc, WInv w → WInv (runQueue (n + 1) w acc).1 := by
+    have hQueue : ∀ w acc, WInvX X w → WInvX X (runQueue (n + 1) w acc).1 := by
       intro w acc h
       simp only [runQueue]
       cases hq : w.queue with
@@ -357,7 +360,7 @@ theorem inv_mutual : ∀ fuel : Nat,
       | cons act rest =>
         simp only
         apply ihQueue
-        have h1 : WInv { w with queue := rest } :=
+        have h1 : WInvX X { w with queue := rest } :=
           ⟨h.ent, h.size, h.good, h.owned, h.inTable,
             fun a ha e he => h.queueOk a (by rw [hq]; exact List.mem_cons_of_mem _ ha) e he⟩
         exact ihAct _ act h1 (fun e he => h.queueOk act (by rw [hq]; exact List.mem_cons_self) e he)
@@ -387,8 +390,8 @@ theorem inv_mutual : ∀ fuel : Nat,
       rw [hrun n]; exact ihQueue w2 [] hinv2
 
 /-- **Every reachable world satisfies the invariant**: any op list, any fuel. -/
-theorem inv_run (fuel : Nat) : ∀ (ops : List WOp) (w : World), WInv w →
-    WInv (ops.foldl (fun w op => (step fuel w op).1) w) := by
+theorem inv_run (fuel : Nat) : ∀ (ops : List WOp) (w : World), WInvX X w →
+    WInvX X (ops.foldl (fun w op => (step fuel w op).1) w) := by
   intro ops
   induction ops with
   | nil => intro w h; exact h
